@@ -16,6 +16,9 @@ ASSUMPTIONS = [
     "by TLC only (DistTick / PollRound of Membership.tla). Judged: the distributor's live members after its drain, which real peers received "
     "the batch built at that tick (their storage is read), the replication cycle's live members at the start of its round; what its keyspace "
     "tracker remembers is reported as drift only",
+    "source: real ChitchatNodes over chitchat's in-process channel transport (failure detector with a 1 s initial interval), four scripts of joins, "
+    "departures and rejoins - under another address, at the address another node had; judged only at quiescence (the snapshot is polled for up to three "
+    "minutes after every change, then has to stay for three seconds): it names exactly the running nodes with their present addresses",
     "behaviours matching a listed known finding (late subscriber / skipped delta) are reported as KNOWN-FINDING, never as violations; every other "
     "mismatch, and every wrong `left`/`joined` content, is a violation",
 ]
@@ -67,6 +70,29 @@ def gossip(ctx, cov):
                                    first_unmatched_event=tv["rejected"], corrupted_copy_rejected=not tb["accepted"])
     if not tv["accepted"]:
         ctx.notes.append("drift (not a C16 verdict): the gossip transport's recorded run is not a behaviour of Gossip.tla: %s" % tv["rejected"])
+
+
+def source(ctx, cov):
+    """Where the snapshots come from: real ChitchatNodes (datacake-node/src/node.rs) over chitchat's in-process transport,
+    scripts of joins / departures / rejoins under other addresses; the settled snapshot must name exactly the running nodes
+    with the addresses they have now (Trace_MembershipSource.tla)."""
+    binary = vlib.build_harness(ctx, "h-node")
+    trace = ctx.path("source.ndjson")
+    out = vlib.run_harness(ctx, [binary, "record-source", "--out", trace], timeout=3000)
+    st = json.loads(out.strip().splitlines()[-1])
+    if st["settled_points"] < 10:
+        raise vlib.ToolError("vacuous membership-source run: %s" % st)
+    tv = vlib.validate_trace(ctx, "Trace_MembershipSource", {}, trace, "trace_source", invariants=["Report"])
+    if tv["rejected"] is not None:
+        raise vlib.ToolError("trace validation stopped early: %s" % tv["rejected"])
+    ctx.log("membership source: %d scripts of real ChitchatNodes, %d settled snapshots (longest wait %d ms): %d differ from what is running" % (
+        st["scripts"], st["settled_points"], st["longest_wait_ms"], len(tv["fails"])))
+    for e in tv["fails"][:3]:
+        ctx.violations.append({"engine": "h-node record-source + Trace_MembershipSource", "event": e,
+                               "why": ["with membership quiescent (up to three minutes were given), the membership layer's snapshot does not name exactly "
+                                       "the running nodes with the addresses they have now"]})
+    cov["membership_source"] = dict(st, snapshots_that_differ=len(tv["fails"]))
+    cov["traces_validated_against_impl"] += st["settled_points"]
 
 
 def consumers(ctx, cov):
@@ -174,6 +200,7 @@ def run(ctx):
            "exhaustive": True, "behaviours": hists, "publishes": pubs, "reads": reads,
            "known_finding_behaviours": known_counts}
     consumers(ctx, cov)
+    source(ctx, cov)
     gossip(ctx, cov)
     return vlib.finish(ctx, "model_checking", cov, ASSUMPTIONS)
 
